@@ -1383,7 +1383,9 @@ def sweep_worker(b, drv, work, wi, undo_raw, dev_path, targets):
     rows = [tuple(int(x) for x in ln.split()) for ln in p.stdout.decode().splitlines() if ln.strip()]
     if len(rows) != len(targets):
         die_broken("instrumentation incomplete: sweep logged %d of %d runs" % (len(rows), len(targets)))
-    same_end = hashlib.sha256(open(dev, "rb").read()).hexdigest() == h0 and open(undo, "rb").read() == undo_raw
+    # (a replay of damaged keys can leave a sparse device of any length: compare the length first, never read such a file)
+    same_end = (os.path.getsize(dev) == os.path.getsize(dev_path) and hashlib.sha256(open(dev, "rb").read()).hexdigest() == h0
+                and os.path.getsize(undo) == len(undo_raw) and open(undo, "rb").read() == undo_raw)
     res = [(by, bit, kind, mode, rc, nw, bool(same) and same_end) for (by, bit, kind, mode), (_b, _bi, _m, rc, nw, same) in zip(targets, rows)]
     return res, same_end
 
